@@ -246,7 +246,7 @@ Proof.
   apply chunking_first in Hch. destruct Hch as (w & ws' & a & -> & Hr & Hw & Hws & Hcat).
   destruct (ixfr_records false v0 chain z0 Hok Hz) as (s1 & s2 & Hl & Hd1 & Hf & Hd2 & Hz2).
   pose proof Hok as (_ & _ & _ & Hser & Hlt).
-  unfold inbound_xfr, xfr_run. rewrite init_ixfr. cbn [Z.eqb tIXFR Pos.eqb]. rewrite drive_cons.
+  unfold inbound_xfr, xfr_run. rewrite init_ixfr. cbn [Z.eqb tIXFR Pos.eqb]. rewrite drive_cons by solve_req.
   rewrite (first_message_ixfr z0 (v_serial v0) false w (soa_rr (last chain v0)) a Hw Hr) by (split; reflexivity).
   cbv zeta. change (r_data (soa_rr (last chain v0)) mod two32) with (v_serial (last chain v0)).
   assert (Hne : (v_serial (last chain v0) =? v_serial v0) = false).
@@ -268,7 +268,7 @@ Proof.
   intros v0 chain z0 w Hok Hz Hw Hr.
   destruct (ixfr_records true v0 chain z0 Hok Hz) as (s1 & s2 & Hl & Hd1 & Hf & Hd2 & Hz2).
   pose proof Hok as (Hne0 & _ & _ & Hser & Hlt).
-  unfold inbound_xfr, xfr_run. rewrite init_ixfr. cbn [Z.eqb tIXFR Pos.eqb]. rewrite drive_cons.
+  unfold inbound_xfr, xfr_run. rewrite init_ixfr. cbn [Z.eqb tIXFR Pos.eqb]. rewrite drive_cons by solve_req.
   unfold ixfr_stream in Hr. cbv zeta in Hr.
   rewrite (first_message_ixfr z0 (v_serial v0) true w (soa_rr (last chain v0)) _ Hw Hr) by (split; reflexivity).
   cbv zeta. change (r_data (soa_rr (last chain v0)) mod two32) with (v_serial (last chain v0)).
@@ -298,7 +298,7 @@ Proof.
   - destruct a as [|y a].
     + cbn [map loopT cont]. destruct Hrun as (Hd & Hrest). rewrite Hd.
       inversion Hh as [|? ? Hw Hws]; subst.
-      rewrite drive_cons. unfold from_wire. rewrite group_true.
+      rewrite drive_cons by apply Hrest. unfold from_wire. rewrite group_true.
       rewrite process_running; [|split; assumption|apply Hw|apply Hw]. cbn [m_answer].
       cbn [app map concat] in Hcat.
       destruct (IH (w_records w) s x rest s' e) as [n Hn]; auto. { split; assumption. }
@@ -318,7 +318,7 @@ Proof.
   intros v0 chain z ser ws Hne Hch Hs0 Hsn Hlt Hsoa.
   unfold ixfr_stream in Hch. cbv zeta in Hch.
   apply chunking_first in Hch. destruct Hch as (w & ws' & a & -> & Hr & Hw & Hws & Hcat).
-  unfold inbound_xfr, xfr_run. rewrite init_ixfr. cbn [Z.eqb tIXFR Pos.eqb]. rewrite drive_cons.
+  unfold inbound_xfr, xfr_run. rewrite init_ixfr. cbn [Z.eqb tIXFR Pos.eqb]. rewrite drive_cons by solve_req.
   rewrite (first_message_ixfr z ser false w (soa_rr (last chain v0)) a Hw Hr) by (split; reflexivity).
   cbv zeta. change (r_data (soa_rr (last chain v0)) mod two32) with (v_serial (last chain v0)).
   apply Z.eqb_neq in Hsn. rewrite Hsn, Hlt. cbn [andb]. rewrite after_tcp by reflexivity.
@@ -354,7 +354,7 @@ Proof.
   { eapply NE; [reflexivity|]. unfold inbound_xfr, xfr_run. rewrite init_ixfr. cbn. eauto. }
   inversion Hh as [|? ? Hw Hws]; subst.
   destruct (w_records w) as [|r0 a] eqn:Hr.
-  { eapply NE; [reflexivity|]. unfold inbound_xfr, xfr_run. rewrite init_ixfr. cbn [Z.eqb tIXFR Pos.eqb]. rewrite drive_cons.
+  { eapply NE; [reflexivity|]. unfold inbound_xfr, xfr_run. rewrite init_ixfr. cbn [Z.eqb tIXFR Pos.eqb]. rewrite drive_cons by solve_req.
     unfold process_message, from_wire. cbn [txn ixfr_init incremental pub set_txn rdtype m_rcode m_question m_answer].
     destruct Hw as [Hrc Hqq]. rewrite Hrc. cbn [Z.eqb negb]. rewrite (header_ok_question tIXFR w (conj Hrc Hqq)).
     cbn [soa]. rewrite Hr. cbn. eauto. }
@@ -372,7 +372,7 @@ Proof.
     as [n [z Hn]]; try assumption.
   { repeat split; try reflexivity; discriminate. }
   apply (NE _ n eq_refl). exists eEOF, z.
-  unfold inbound_xfr, xfr_run. rewrite init_ixfr. cbn [Z.eqb tIXFR Pos.eqb]. rewrite drive_cons.
+  unfold inbound_xfr, xfr_run. rewrite init_ixfr. cbn [Z.eqb tIXFR Pos.eqb]. rewrite drive_cons by solve_req.
   rewrite (first_message_ixfr z0 (v_serial v0) false w (soa_rr (last chain v0)) a Hw Hr) by (split; reflexivity).
   cbv zeta. change (r_data (soa_rr (last chain v0)) mod two32) with (v_serial (last chain v0)).
   assert (Hne : (v_serial (last chain v0) =? v_serial v0) = false).
